@@ -394,7 +394,8 @@ def execute(case):
 
 def corrupt(trace, rng):
     """Turn one logged query answer into a stale-looking one."""
-    qs = [i for i, e in enumerate(trace["ev"]) if e["op"] in ("occ", "find_pos", "state") and e["exc"] == "None"]
+    # (only queries the lattice model decides exactly: a position on a lanelet boundary may go either way)
+    qs = [i for i, e in enumerate(trace["ev"]) if e["op"] in ("occ", "state") and e["exc"] == "None"]
     if not qs:
         return None
     e = trace["ev"][rng.choice(qs)]
